@@ -925,6 +925,43 @@ construct_block(Array<D, int>& x, const Box& box, FILE* out, NdStats& st, const 
     }
 }
 
+// every checked access path: at(coordinate) and chained at(int), through a const and a non-const array
+template <int D>
+struct AtChain
+{
+  template <class ArrT>
+  static int get(ArrT& a, const std::vector<int>& cc, int d)
+  {
+    return AtChain<D - 1>::get(a.at(cc[d]), cc, d + 1);
+  }
+};
+template <>
+struct AtChain<1>
+{
+  template <class ArrT>
+  static int get(ArrT& a, const std::vector<int>& cc, int d)
+  {
+    return a.at(cc[d]);
+  }
+};
+template <int D>
+static int
+checked_read(Array<D, int>& a, const std::vector<int>& cc, int form)
+{
+  const Array<D, int>& ca = a;
+  switch (form)
+    {
+    case 0:
+      return a.at(coord<D>(cc));
+    case 1:
+      return ca.at(coord<D>(cc));
+    case 2:
+      return AtChain<D>::get(a, cc, 0);
+    default:
+      return AtChain<D>::get(ca, cc, 0);
+    }
+}
+
 template <int D>
 static void
 nd_histories(vh::Rng& rng, int histories, int len, FILE* out, NdStats& st)
@@ -1068,7 +1105,9 @@ nd_histories(vh::Rng& rng, int histories, int len, FILE* out, NdStats& st)
                   bool threw = false;
                   try
                     {
-                      (void)a.at(coord<D>(cc));
+                      const int form = rng.range(0, 3);
+                      trace << "at-form " << form << "; ";
+                      (void)checked_read<D>(a, cc, form);
                     }
                   catch (std::out_of_range&)
                     {
